@@ -938,6 +938,8 @@ ol, ul { padding-left: 2em; }
         """ Copy all attributes to a struct.
             We will later convert them to CSS2
         """
+        if self.currentstyle is None:
+            return  # Properties of something that isn't converted to CSS
         for key,attr in attrs.items():
             self.styledict[self.currentstyle][key] = attr
 
